@@ -86,7 +86,7 @@ type WorkerOut struct {
 	ListViaIt  bool              `json:"list_via_iterate"`
 	Extra      map[string]int64  `json:"extra,omitempty"`
 	Mismatch   []int             `json:"mismatch,omitempty"` // runs whose in-process re-execution hashed differently
-	Digest     uint64            `json:"digest,string"` // fold of every run's event-log hash, in run order
+	Digest     uint64            `json:"digest,string"`      // fold of every run's event-log hash, in run order
 	Blocked    int               `json:"blocked,omitempty"`
 	BlockedRun int               `json:"blocked_run,omitempty"`
 }
